@@ -7,6 +7,9 @@ from props.workercommon import *
 def monitors_c01(case, seq, batches, filt, sent):
     out = []
     evs = {e["id"]: e for e in case["events"]}
+    mult = {}
+    for e in case["events"]:
+        mult[e["id"]] = mult.get(e["id"], 0) + 1
     count = {}
     for ts, ids, te in batches:
         if not ids:
@@ -17,8 +20,8 @@ def monitors_c01(case, seq, batches, filt, sent):
         ok = sent.get(i, {}).get("ok", False)
         acc = e.get("prio") == "urgent" or e.get("empty") or e.get("verdict", "pass") == "pass"
         n = count.get(i, 0)
-        if ok and acc and n != 1:
-            out.append((f"C01_conservation: accepted event delivered {n} times", e))
+        if ok and acc and n != mult[i]:
+            out.append((f"C01_conservation: accepted event delivered {n} times (sent {mult[i]} times)", e))
         if not acc and n:
             out.append(("C01_rejected_never: an event the filter rejected or errored on reached the handler", e))
         if acc is False and e.get("verdict") in ("reject", "err") and i not in filt and ok and e.get("prio") != "urgent" and not e.get("empty"):
